@@ -764,7 +764,7 @@ def process_block(blk, emitted_items):
                 s_to = body.rfind("}")
             a = dict(a)
             a["_range"] = (s_from, s_to)
-        f, t = a.get("from"), a.get("to")
+        f, t = a.get("from"), a.get("to") or a.get("from")
         if a.get("_range"):
             s0, e = a["_range"]
             # trim to whole lines
@@ -775,7 +775,12 @@ def process_block(blk, emitted_items):
             sl = body[s0:e].rstrip()
             e = s0 + len(sl)
             i0 = s0
-        i0 = body.find(f) if not a.get("_range") else i0
+        if not a.get("_range"):
+            i0 = -1
+            for _ in range(int(a.get("nth", 1))):
+                i0 = body.find(f, i0 + 1)
+                if i0 < 0:
+                    break
         if not a.get("_range"):
             if i0 < 0:
                 raise AnchorLost("slice from-anchor %r not found in %s" % (f, item))
